@@ -28,7 +28,7 @@ Fixpoint g_tests (m : mode) (ts : list gtest) (line : nat) : list ptest :=
 (* Markdown: the same with an optional inline configuration in the header of every block *)
 Definition gen_md_one (m : mode) (cfg : option text) (t : gtest) : list elem :=
   (match g_title t with Some x => [EHeading 1 x; EBlank] | None => [] end)
-  ++ [EScrut (S (max_bt 2 (md_block_text (g_cmd t) (g_conts t) (gen_body m (g_lines t) (g_code t))))) cfg []
+  ++ [EScrut (S (max_bt 2 (md_block_text (g_cmd t) (g_conts t) (gen_body m (g_lines t) (g_code t))))) cfg [] []
              (Some (g_cmd t, g_conts t, gen_body m (g_lines t) (g_code t))) []].
 Fixpoint gen_md_docs (m : mode) (cfg : option text) (ts : list gtest) : list elem :=
   match ts with
